@@ -142,44 +142,88 @@ Fixpoint comp_args (l : list query) (p sn : nat) : option (list instr * nat * na
   end.
 End Args.
 
-Fixpoint comp (q : query) (ce : cenv) (cur pc nv sn : nat) {struct q} : res :=
+(* ---- optimizeTailRec, as part of the compiler ----
+   tl = Some (p, Some cj): the query is in tail position of the parameterless function whose opscope is at p (the
+   code after it leads to that function's opret through jumps only); a call of that function is then emitted as
+   opcallrec p, or as jump (p + 1) when the function's scope has no variable (cj).  tl = Some (p, None): a position
+   that optimizeTailRec also treats as a tail position but that the theorem does not cover (the right side of //, a
+   catch handler, the extract part of foreach, the body of a label): a call of p there is outside the fragment.
+   Compile.tailrec below is the pass as the Go code does it (a scan over the emitted code); Run.v checks on every
+   sampled program that both give the same code. *)
+Definition tailpos := option (nat * option bool).
+Definition tl_fb (tl : tailpos) : tailpos := match tl with Some (p, _) => Some (p, None) | None => None end.
+Definition tail_call (tl : tailpos) (p : nat) : option instr :=
+  match tl with
+  | Some (p', r) =>
+      if Nat.eqb p' p then
+        match r with Some true => Some (Ijump (S p)) | Some false => Some (Icallrec p) | None => None end
+      else Some (Icallf p)
+  | None => Some (Icallf p)
+  end.
+(* the number of variables a query allocates in the scope it is compiled in (independent of the mode) *)
+Fixpoint nvars (q : query) : nat :=
+  match q with
+  | QId | QEmpty | QBreak _ | QVar _ | QCall0 _ => 0
+  | QConst c => lit_vars c
+  | QPipe a b | QComma a b => nvars a + nvars b
+  | QIter t | QIndex t _ => nvars t
+  | QIf c a b => nvars c + nvars a + nvars b
+  | QAlt a b => S (nvars a + nvars b)
+  | QTry a h => nvars a + match h with Some h' => nvars h' | None => 0 end
+  | QArray q' => S (nvars q')
+  | QReduce s _ i u => S (nvars i + nvars s + S (nvars u))
+  | QForeach s _ i u e => S (nvars i + nvars s + S (nvars u)) + match e with Some e' => nvars e' | None => 0 end
+  | QLabel _ b => S (nvars b)
+  | QBind s _ b => nvars s + S (nvars b)
+  | QBinop _ _ _ => 1
+  | QDef _ _ _ rest => nvars rest
+  | QCallF _ args => match args with [] => 0 | _ => 1 end
+  end.
+
+Section Tco.
+Variable tco : bool.      (* optimizeTailRec on / off *)
+Definition tl_body (p : nat) (ps : list param) (body : query) : tailpos :=
+  if tco && Nat.eqb (length ps) 0 then Some (p, Some (Nat.eqb (nvars body) 0)) else None.
+
+Fixpoint compg (q : query) (ce : cenv) (tp : tailpos) (cur pc nv sn : nat) {struct q} : res :=
   let V := fun k : nat => (cur, k) in
   match q with
   | QId => Some ([], nv, sn)
   | QConst c => Some ([Iconst c], nv + lit_vars c, sn)
   | QPipe a b =>
-      match comp a ce cur pc nv sn with
+      (* when b emits no code, a is followed by whatever follows the pipe *)
+      match compg a ce (match tp with None => None | Some _ => if emptycode b then tp else None end) cur pc nv sn with
       | Some (ca, n1, s1) =>
-          match comp b ce cur (pc + length ca) n1 s1 with
+          match compg b ce tp cur (pc + length ca) n1 s1 with
           | Some (cb, n2, s2) => Some (ca ++ cb, n2, s2)
           | None => None end
       | None => None end
   | QComma a b =>
-      match comp a ce cur (S pc) nv sn with
+      match compg a ce tp cur (S pc) nv sn with
       | Some (ca, n1, s1) =>
           let l := pc + 1 + length ca + 1 in
-          match comp b ce cur l n1 s1 with
+          match compg b ce tp cur l n1 s1 with
           | Some (cb, n2, s2) => Some (Ifork l :: ca ++ Ijump (l + length cb) :: cb, n2, s2)
           | None => None end
       | None => None end
   | QEmpty => Some ([Ibacktrack], nv, sn)
   | QIter t =>
-      match comp t ce cur pc nv sn with
+      match compg t ce None cur pc nv sn with
       | Some (ct, n1, s1) => Some (ct ++ [Iiter], n1, s1)
       | None => None end
   | QIndex t k =>
-      match comp t ce cur pc nv sn with
+      match compg t ce None cur pc nv sn with
       | Some (ct, n1, s1) => Some (ct ++ [Iindex k], n1, s1)
       | None => None end
   | QIf c a b =>
-      match comp c ce cur (pc + 2) nv sn with
+      match compg c ce None cur (pc + 2) nv sn with
       | Some (cc, n1, s1) =>
           let pre := match cc with [] => [Idup] | _ => Idup :: Iexpbegin :: cc ++ [Iexpend] end in
           let pcc := pc + length pre in
-          match comp a ce cur (S pcc) n1 s1 with
+          match compg a ce tp cur (S pcc) n1 s1 with
           | Some (ca, n2, s2) =>
               let e := pcc + 1 + length ca + 1 in
-              match comp b ce cur e n2 s2 with
+              match compg b ce tp cur e n2 s2 with
               | Some (cb, n3, s3) =>
                   match is_const1 ca, is_const1 cb with
                   | Some x, Some y =>     (* optimize constant results *)
@@ -192,10 +236,10 @@ Fixpoint comp (q : query) (ce : cenv) (cur pc nv sn : nat) {struct q} : res :=
       | None => None end
   | QAlt a b =>
       let f := V nv in
-      match comp a ce cur (pc + 3) (S nv) sn with
+      match compg a ce None cur (pc + 3) (S nv) sn with
       | Some (ca, n1, s1) =>
           let p1 := pc + 3 + length ca in
-          match comp b ce cur (p1 + 11) n1 s1 with
+          match compg b ce (tl_fb tp) cur (p1 + 11) n1 s1 with
           | Some (cb, n2, s2) =>
               Some (Ipush (VBool false) :: Istore f :: Ifork (p1 + 7) :: ca ++
                     [Idup; Ijumpifnot (p1 + 5); Ipush (VBool true); Istore f; Ijump (p1 + 11 + length cb);
@@ -203,12 +247,12 @@ Fixpoint comp (q : query) (ce : cenv) (cur pc nv sn : nat) {struct q} : res :=
           | None => None end
       | None => None end
   | QTry a h =>
-      match comp a ce cur (S pc) nv sn with
+      match compg a ce None cur (S pc) nv sn with
       | Some (ca, n1, s1) =>
           let hp := pc + 1 + length ca + 2 in
           match h with
           | Some h =>
-              match comp h ce cur hp n1 s1 with
+              match compg h ce (tl_fb tp) cur hp n1 s1 with
               | Some (ch, n2, s2) => Some (Iforktrybegin hp :: ca ++ Iforktryend :: Ijump (hp + length ch) :: ch, n2, s2)
               | None => None end
           | None => Some (Iforktrybegin hp :: ca ++ [Iforktryend; Ijump (hp + 1); Ibacktrack], n1, s1)
@@ -216,7 +260,7 @@ Fixpoint comp (q : query) (ce : cenv) (cur pc nv sn : nat) {struct q} : res :=
       | None => None end
   | QArray q =>
       let arr := V nv in
-      match comp q ce cur (pc + 3) (S nv) sn with
+      match compg q ce None cur (pc + 3) (S nv) sn with
       | Some (cq, n1, s1) =>
           match array_fold q with
           | Some cs => Some ([Iconst (VArr cs)], n1, s1)
@@ -227,13 +271,13 @@ Fixpoint comp (q : query) (ce : cenv) (cur pc nv sn : nat) {struct q} : res :=
       | None => None end
   | QReduce src x init upd =>
       let acc := V nv in
-      match comp init ce cur (S pc) (S nv) sn with
+      match compg init ce None cur (S pc) (S nv) sn with
       | Some (ci, n1, s1) =>
           let p1 := pc + 1 + length ci in        (* store acc; fork *)
-          match comp src ce cur (p1 + 2) n1 s1 with
+          match compg src ce None cur (p1 + 2) n1 s1 with
           | Some (cs, n2, s2) =>
               let p2 := p1 + 2 + length cs in    (* store x; load acc *)
-              match comp upd (add_var ce x (V n2)) cur (p2 + 2) (S n2) s2 with
+              match compg upd (add_var ce x (V n2)) None cur (p2 + 2) (S n2) s2 with
               | Some (cu, n3, s3) =>
                   let p3 := p2 + 2 + length cu in
                   Some (Idup :: ci ++ Istore acc :: Ifork (p3 + 2) :: cs ++
@@ -243,18 +287,18 @@ Fixpoint comp (q : query) (ce : cenv) (cur pc nv sn : nat) {struct q} : res :=
       | None => None end
   | QForeach src x init upd ext =>
       let acc := V nv in
-      match comp init ce cur (S pc) (S nv) sn with
+      match compg init ce None cur (S pc) (S nv) sn with
       | Some (ci, n1, s1) =>
           let p1 := pc + 1 + length ci in        (* store acc *)
-          match comp src ce cur (p1 + 1) n1 s1 with
+          match compg src ce None cur (p1 + 1) n1 s1 with
           | Some (cs, n2, s2) =>
               let p2 := p1 + 1 + length cs in    (* store x; load acc *)
-              match comp upd (add_var ce x (V n2)) cur (p2 + 2) (S n2) s2 with
+              match compg upd (add_var ce x (V n2)) None cur (p2 + 2) (S n2) s2 with
               | Some (cu, n3, s3) =>
                   let p3 := p2 + 2 + length cu in   (* dup; store acc *)
                   match ext with
                   | Some e =>
-                      match comp e (add_var ce x (V n2)) cur (p3 + 2) n3 s3 with
+                      match compg e (add_var ce x (V n2)) (tl_fb tp) cur (p3 + 2) n3 s3 with
                       | Some (cx, n4, s4) =>
                           Some (Idup :: ci ++ Istore acc :: cs ++ Istore (V n2) :: Iload acc :: cu ++
                                 Idup :: Istore acc :: cx, n4, s4)
@@ -267,7 +311,7 @@ Fixpoint comp (q : query) (ce : cenv) (cur pc nv sn : nat) {struct q} : res :=
           | None => None end
       | None => None end
   | QLabel l body =>
-      match comp body (add_lbl ce l (V nv)) cur (S pc) (S nv) sn with
+      match compg body (add_lbl ce l (V nv)) (tl_fb tp) cur (S pc) (S nv) sn with
       | Some (cb, n1, s1) => Some (Iforklabel (V nv) :: cb, n1, s1)
       | None => None end
   | QBreak l =>
@@ -275,13 +319,13 @@ Fixpoint comp (q : query) (ce : cenv) (cur pc nv sn : nat) {struct q} : res :=
       | Some k => Some ([Ipop; Iload k; Icall NBreak], nv, sn)
       | None => None end
   | QBind src x body =>
-      match comp src ce cur (pc + 2) nv sn with
+      match compg src ce None cur (pc + 2) nv sn with
       | Some (cs, n1, s1) =>
           let pre := match cs with
                      | [] => [Idup; Inop; Istore (V n1)]
                      | _ => Idup :: Iexpbegin :: cs ++ [Istore (V n1); Iexpend]
                      end in
-          match comp body (add_var ce x (V n1)) cur (pc + length pre) (S n1) s1 with
+          match compg body (add_var ce x (V n1)) tp cur (pc + length pre) (S n1) s1 with
           | Some (cb, n2, s2) => Some (pre ++ cb, n2, s2)
           | None => None end
       | None => None end
@@ -297,7 +341,7 @@ Fixpoint comp (q : query) (ce : cenv) (cur pc nv sn : nat) {struct q} : res :=
          variable of the lambda scope (push c, or load v; X) *)
       let v := V nv in
       let arg := fun (q : query) (p sn : nat) =>
-        match comp q ce sn (p + 2) 0 (S sn) with       (* the lambda scope has id sn *)
+        match compg q ce None sn (p + 2) 0 (S sn) with       (* the lambda scope has id sn *)
         | Some (cb, nvc, s1) =>
             Some (match cb with
                   | [] => [Iload v]
@@ -324,10 +368,10 @@ Fixpoint comp (q : query) (ce : cenv) (cur pc nv sn : nat) {struct q} : res :=
       if Nat.ltb cur sn && ce_lt ce sn then
       let ce' := add_fun ce f (S pc) (length ps) in
       let pre := prelude sn ps in
-      match comp body (add_env (fun_env ce') (param_env sn ps)) sn (pc + 2 + length pre) (param_slots ps) (S sn) with
+      match compg body (add_env (fun_env ce') (param_env sn ps)) (tl_body (S pc) ps body) sn (pc + 2 + length pre) (param_slots ps) (S sn) with
       | Some (cb, nvb, s1) =>
           let l := pc + 2 + length pre + length cb + 1 in
-          match comp rest ce' cur l nv s1 with
+          match compg rest ce' tp cur l nv s1 with
           | Some (cr, nv', s2) => Some (Ijump l :: Iscope sn nvb (length ps) :: pre ++ cb ++ Iret :: cr, nv', s2)
           | None => None end
       | None => None end
@@ -337,12 +381,14 @@ Fixpoint comp (q : query) (ce : cenv) (cur pc nv sn : nat) {struct q} : res :=
       | Some (CP y) => Some ([Iload y; Icallpc], nv, sn)        (* a filter parameter: load the closure; callpc *)
       | Some (CF p _) =>
           match args with
-          | [] => Some ([Icallf p], nv, sn)                     (* compileCallPc with no argument: opcall pc *)
+          | [] => match tail_call tp p with                     (* compileCallPc with no argument: opcall pc *)
+                  | Some x => Some ([x], nv, sn)
+                  | None => None end
           | _ =>
               (* compileCallInternal(pc, args, internal = false): store v; for the arguments from the last to the
                  first: the argument as a function definition, pushpc; load v; opcall pc *)
               if Nat.ltb cur sn && ce_lt ce sn then
-              match comp_args (fun a s' p' => comp a (fun_env ce) s' (p' + 2) 0 (S s')) args (S pc) sn with
+              match comp_args (fun a s' p' => compg a (fun_env ce) None s' (p' + 2) 0 (S s')) args (S pc) sn with
               | Some (cas, _, s2) => Some (Istore (V nv) :: cas ++ [Iload (V nv); Icallf p], S nv, s2)
               | None => None end
               else None
@@ -352,11 +398,14 @@ Fixpoint comp (q : query) (ce : cenv) (cur pc nv sn : nat) {struct q} : res :=
   end.
 
 (* Compile(): opscope (lazy: final variablecnt), the query, opret *)
-Definition compile_raw (q : query) : option (list instr) :=
-  match comp q ce_empty mainscope 1 0 2 with
+Definition compile_raw_g (q : query) : option (list instr) :=
+  match compg q ce_empty None mainscope 1 0 2 with
   | Some (c, nv, _) => Some (Iscope mainscope nv 0 :: c ++ [Iret])
   | None => None
   end.
+
+End Tco.
+Definition compile_raw : query -> option (list instr) := compile_raw_g false.
 
 (* ---- optimizeCodeOps ---- *)
 Definition set_nth (l : list instr) (i : nat) (x : instr) : list instr :=
@@ -473,3 +522,5 @@ Fixpoint tr_loop (codes l : list instr) (i : nat) (pcs : list nat) (scs : list (
 Definition tailrec (c : list instr) : list instr := tr_loop c c 0 [] [].
 
 Definition compile (q : query) : option (list instr) := option_map (fun c => peephole (tailrec c)) (compile_raw q).
+(* the same with optimizeTailRec done by the compiler *)
+Definition compile_tco (q : query) : option (list instr) := option_map peephole (compile_raw_g true q).
